@@ -134,3 +134,87 @@ func c02crossTransport(t *testing.T) (problems []string, n int) {
 
 	return problems, n
 }
+
+// c07crossTransport (C07, "known remote candidate on the same transport"): the peer's UDP address is first learnt
+// from its checks (peer-reflexive) and signalled afterwards; a TCP stream from the same IP:port that never
+// authenticated then sends application data. Nothing of it may reach the reader.
+func c07crossTransport(t *testing.T) (problems []string, n int) {
+	inBubble(t, func() {
+		raw, _ := json.Marshal(gatherCfg{Ifaces: gIfacesBasic, NetTypes: []string{"udp4", "tcp4"}, CandTypes: []string{"host"}, TCPMux: "10.0.0.1:7001"})
+		gw := newGatherWorld(raw)
+		defer gw.Close()
+		a := gw.a
+		conn, err := a.StartAccept(vUfragB, vPwdB)
+		if err != nil {
+			panic(err)
+		}
+		var read [][]byte
+		go func() {
+			buf := make([]byte, 4096)
+			for {
+				k, err := conn.Read(buf)
+				if err != nil {
+					return
+				}
+				read = append(read, append([]byte{}, buf[:k]...))
+			}
+		}()
+		if err := a.GatherCandidates(); err != nil {
+			panic(err)
+		}
+		synctest.Wait()
+		peerIP, peerPort := "192.0.2.9", 40001
+		peerUDP := gw.newSock("peer-udp", peerIP, peerPort, "")
+		var sock *vsock
+		for _, lc := range gw.localCands() {
+			if lc.NetworkType() == NetworkTypeUDP4 {
+				if gs, ok := lc.(*CandidateHost).conn.(*gSock); ok {
+					sock = gs.vsock
+				}
+			}
+		}
+		if sock == nil {
+			problems = append(problems, "HARNESS: no UDP local candidate socket")
+
+			return
+		}
+		lu, lp, _ := a.GetLocalUserCredentials()
+		check := func(key string) []byte {
+			m, _ := stun.Build(stun.BindingRequest, stun.TransactionID, stun.NewUsername(lu+":"+vUfragB), AttrControlling(3), PriorityAttr(1845501695),
+				stun.NewShortTermIntegrity(key), stun.Fingerprint)
+
+			return m.Raw
+		}
+		// 1. an authenticated UDP check from an address nobody signalled: peer-reflexive remote candidate
+		gw.inject(sock, peerUDP.addr.String(), check(lp))
+		// 2. the same address is signalled: the peer-reflexive candidate is superseded
+		rc, _ := NewCandidateHost(&CandidateHostConfig{Network: "udp", Address: peerIP, Port: peerPort, Component: 1})
+		_ = a.AddRemoteCandidate(rc)
+		synctest.Wait()
+		// 3. application data over UDP from that address is let through (the address is known on UDP) ...
+		udpData := []byte{0x80, 'u', 'd', 'p', ' ', 'd', 'a', 't', 'a'}
+		gw.inject(sock, peerUDP.addr.String(), udpData)
+		// 4. ... a TCP stream from the same IP:port names the ufrag but never authenticates, then sends data
+		c, s := newPipe(&net.TCPAddr{IP: net.ParseIP(peerIP).To4(), Port: peerPort}, gw.lis.addr)
+		gw.lis.ch <- s
+		_, _ = c.Write(c15frame(check("not the password, not the password")))
+		synctest.Wait()
+		tcpData := []byte{0x80, 't', 'c', 'p', ' ', 'd', 'a', 't', 'a'}
+		_, _ = c.Write(c15frame(tcpData))
+		synctest.Wait()
+		n = 2
+		gotUDP := false
+		for _, r := range read {
+			if string(r) == string(tcpData) {
+				problems = append(problems, "data from a TCP stream whose address is a known remote candidate on UDP only reached the reader")
+			}
+			gotUDP = gotUDP || string(r) == string(udpData)
+		}
+		if !gotUDP {
+			problems = append(problems, "data over UDP from the (superseded peer-reflexive, now signalled) remote candidate did not reach the reader")
+		}
+		_ = c.Close()
+	})
+
+	return problems, n
+}
